@@ -13,9 +13,13 @@ Mirrors `src/regression/leastsquares/LeastSquares.cpp` and
   theorem quantifies over them, the driver fills them with NaN.  (`W_` is set to 1 by the code.)
 * The callers write the problem through `getJ()`, `getY()`, `getW()`; `writeRow i r y` is
   `J(i,c) = r[c]` for `c < estimateSize_`, `Y(i) = y`, `setW i w` is `W(i) = w`.  In C++ an index outside the
-  buffer (`i ≥ Y_.rows()`, or a column `≥ J_.cols()` — possible after `setEstimateSize` with a larger size on
-  an allocated object without a following growth) is undefined behaviour; the model ignores such writes and
-  reads 0 there, and drivers, generators and theorems stay away from them (`bad-op` on both sides).
+  buffer (`i ≥ Y_.rows()`) is undefined behaviour; the model ignores such writes and reads 0 there, and drivers,
+  generators and theorems stay away from them (`bad-op` on both sides).
+* `setEstimateSize` (since the repair 186525a) also reshapes the design matrix: `J_.resize(Y_.rows(), estimateSize_)`.
+  Eigen reallocates — contents unspecified, carried as `junkJ` like for `setDataSize` — exactly when the number of
+  coefficients changes; when it stays the same the allocation is kept and only the shape changes (column-major
+  reinterpretation).  In every object whose three buffers have the same number of rows (all real objects) "same
+  number of coefficients" means "same number of columns or no rows", and the reinterpretation is the identity.
 * Eigen's `JacobiSVD` and `LDLT::solve(Identity)` are parameters (`Env`), with contracts stated in
   `RomeaProofs/Properties/C07.lean`; `RomeaModel/LeastSquaresOracles.lean` has Lean implementations for execution.
 
@@ -110,9 +114,17 @@ def State.ofEstData (e n : Nat) : State α :=
     J := Mat.tab n e fun _ _ => zero, Y := Vec.tab n fun _ => zero, W := Vec.tab n fun _ => one,
     inv := Mat.tab e e fun _ _ => zero }
 
-/-- `setEstimateSize` (cpp:131-139): the preconditioner and `inverseJtJ_` are reset, the data buffers are NOT touched -/
-def setEstimateSize (s : State α) (e : Nat) : State α :=
-  { s with est := e, Ac := identity e, Bc := Vec.tab e fun _ => zero, inv := Mat.tab e e fun _ _ => zero }
+/-- `setEstimateSize` (cpp:128-141): `J_.resize(Y_.rows(), estimateSize)`, then the preconditioner and
+    `inverseJtJ_` are reset; `Y_`, `W_` and `dataSize_` are not touched.
+    `resize` keeps the allocation iff the number of coefficients is unchanged (then coefficient `i + j·rows` of the
+    column-major storage is reread under the new shape), otherwise the contents are unspecified (`junkJ`). -/
+def setEstimateSize (s : State α) (e : Nat) (junkJ : Nat → Nat → α) : State α :=
+  let rows := s.Y.size
+  let J' : Mat α :=
+    if rows * e = s.J.size * Mat.cols s.J then
+      Mat.tab rows e fun i j => let k := i + j * rows; s.J.get (k % s.J.size) (k / s.J.size)
+    else Mat.tab rows e junkJ
+  { s with est := e, J := J', Ac := identity e, Bc := Vec.tab e fun _ => zero, inv := Mat.tab e e fun _ _ => zero }
 
 /-- `setDataSize` (cpp:144-159): grow-only; returns whether the buffers were reallocated.
     `junkJ`, `junkY` = the unspecified contents of the reallocated `J_`, `Y_`. -/
@@ -191,7 +203,7 @@ def covariance (s : State α) (var : α) : Mat α :=
 /-! ### The object as `step` -/
 
 inductive Op (α : Type)
-  | setEstimateSize (e : Nat)
+  | setEstimateSize (e : Nat) (junkJ : Nat → Nat → α)
   | setDataSize (n : Nat) (junkJ : Nat → Nat → α) (junkY : Nat → α)
   | writeRow (i : Nat) (r : Vec α) (y : α)
   | setW (i : Nat) (w : α)
@@ -208,7 +220,7 @@ inductive Out (α : Type)
   | mat (m : Mat α)
 
 def step (env : Env α) (s : State α) : Op α → State α × Out α
-  | .setEstimateSize e => (setEstimateSize s e, .unit)
+  | .setEstimateSize e jJ => (setEstimateSize s e jJ, .unit)
   | .setDataSize n jJ jY => let r := setDataSize s n jJ jY; (r.1, .grew r.2)
   | .writeRow i r y => (writeRow s i r y, .unit)
   | .setW i w => (setW s i w, .unit)
